@@ -119,7 +119,7 @@ func ruleStepBound(p *core.Program) []core.Obligation {
 	var obs []core.Obligation
 	for _, fn := range p.Funcs {
 		recv := recvNamed(fn)
-		if recv == nil || fn.Name() != "Next" {
+		if recv == nil || fn.Parent() != nil || !isOperatorMethod(fn) {
 			continue
 		}
 		st, _ := recv.Underlying().(*types.Struct)
